@@ -442,6 +442,12 @@ def _tz(m):
     return (m & -m).bit_length() - 1 if m else 0
 
 
+DECODE_ONLY_OK = {
+    ("PDUHeader", "destination_entity_id"): "both entity ids share one length nibble on the wire; the encoder writes it from the source id (C05-L3 / the header rules check the widths agree)",
+    ("SFORequest", "prior_waypoints_count"): "read as a whole octet; the masks in its slice belong to the flags octet read just before (control dependence)",
+}
+
+
 @rule("C05", "C05-L1", 40, "bit-field layout: for every field the encoder packs into a byte, the decoder extracts it from the same position with a mask that is aligned with its shift and wide enough for every value the encoder can put there; encoder masks cut no possible value; fields of one byte do not overlap")
 def c05_l1(ctx):
     types = codec_types(ctx)
@@ -493,7 +499,14 @@ def c05_l1(ctx):
                     yield bad("C05-L1", key, at(fd), "the encoder packs %s into a bit field (shift %s) but the decoder's value for it does not come from a masked byte" % (fld, sorted({lf.shift for _, lf in E})))
                 continue
             if D and not E:
-                continue  # decoded from bits, encoded through a helper (tables are L4's business)
+                # decoded from bits, but no bit field of the encoder is filled from this field. Without composed
+                # bytes in the encoder the field goes through a helper table (L4's business). With composed bytes
+                # the bits the decoder reads are written from something else: unless that is one of the
+                # reviewed cases below, decode(encode(v)).field need not be v.field
+                if trees and (tn, fld) not in DECODE_ONLY_OK:
+                    n += 1
+                    yield bad("C05-L1", key, at(fd), "the decoder reads %s from bits %s, but the encoder fills no bit field from self.%s (what it writes there is derived from other fields): a value of %s that disagrees with them does not survive encode -> decode" % (fld, [(hex(M), k) for M, k, _ in D][:3], fld, fld))
+                continue
             problems = []
             alts = CONST_ALTS.get((path, fld))
             if alts and (path, fld) not in CONTROL_FIELDS:
